@@ -341,21 +341,29 @@ def hexFace (grid1D : List α) : List (Vec3 α) :=
     (⟨x, y, z⟩ : Vec3 α))
   pts.filter (fun p => lt (-(dec 1 7)) p.z)
 
+omit [HasCeil α] in
+/-- all points of the bipyramid before normalisation: the six rotated top faces, the north pole, the mirrored bottom
+faces without the rim, the south pole -/
+def hexPoints (grid1D : List α) : List (Vec3 α) :=
+  let face := hexFace grid1D
+  let angle : α := deg2rad (lit 60)
+  let top := (List.range 6).flatMap (fun i => face.map (rotZ (lit i * angle)))
+  let bottom := (top.map (fun p => (⟨p.x, p.y, p.z * -(lit 1)⟩ : Vec3 α))).filter
+    (fun p => lt p.z (-(dec 1 7)))
+  top ++ [⟨lit 0, lit 0, lit 1⟩] ++ bottom ++ [⟨lit 0, lit 0, -(lit 1)⟩]
+
+omit [Scalar α] [HasCeil α] in
+/-- an even number of steps is required to get a point in the middle of the hexagon edge (Python `%`: the result has
+the sign of the divisor, as `Int.emod` for a positive divisor) -/
+def evenSteps (n0 : Int) : Int := if n0 % 2 = 1 then n0 + 1 else n0
+
 /-- `sample_S2_hexagonal_mesh(resolution)` -/
 def hexMesh (resolution : α) : Except Err (HexMesh α) :=
   match HasCeil.ceilInt (lit 2 / tan (deg2rad resolution)) with
   | none => .error .nonFinite
   | some n0 =>
-    let n : Int := if n0 % 2 = 1 then n0 + 1 else n0
-    match sampleLengthEquidistant n (lit 1 : α) true true false with
+    match sampleLengthEquidistant (evenSteps n0) (lit 1 : α) true true false with
     | .error e => .error e
-    | .ok grid1D =>
-      let face := hexFace grid1D
-      let angle : α := deg2rad (lit 60)
-      let top := (List.range 6).flatMap (fun i => face.map (rotZ (lit i * angle)))
-      let bottom := (top.map (fun p => (⟨p.x, p.y, p.z * -(lit 1)⟩ : Vec3 α))).filter
-        (fun p => lt p.z (-(dec 1 7)))
-      let all := top ++ [⟨lit 0, lit 0, lit 1⟩] ++ bottom ++ [⟨lit 0, lit 0, -(lit 1)⟩]
-      .ok { steps := n, vectors := all.map Vec3.unit }
+    | .ok grid1D => .ok { steps := evenSteps n0, vectors := (hexPoints grid1D).map Vec3.unit }
 
 end Orix.Sampling
